@@ -33,6 +33,8 @@ SYMBOLS = {
     "V3": "CCBr>>N",                         # valid, declined (no common substructure); only used by the stale sources
     # valid, input-balanced, written with every character class a file reader could mangle: / \\ # % @ + - = ( ) [ ]
     "V4": "C/C=C\\C#N.[NH4+].N[C@@H](C)C(=O)[O-].C%10CC%10>>C/C=C\\C#N.[NH4+].N[C@@H](C)C(=O)[O-].C%10CC%10",
+    "V5": " CCO>>CC=O",                      # valid, leading blank (RDKit skips it): rule-based
+    "V6": "CCO >>CC=O",                      # valid, blank before the arrow (the rest of a SMILES after a blank is its name): declined
     "M1": "C(C)(>>CC",                       # unparsable SMILES
     "M2": "CCO",                             # no separator
     "M3": "CCO>CC>CC=O",                     # reagent style
@@ -45,7 +47,7 @@ SYMBOLS = {
     "M7b": NAN,                              # missing value: NaN
     "M7c": ABSENT,                           # missing value: key / cell absent
 }
-VALID = ("V1", "V2", "V3", "V4")
+VALID = ("V1", "V2", "V3", "V4", "V5", "V6")
 UNSOLVABLE = ("M1", "M2", "M3", "M4", "M7a", "M7b", "M7c", "M8", "M9")   # can never be solved
 
 SOURCE_SYMBOLS = {
@@ -59,6 +61,12 @@ SOURCE_SYMBOLS = {
     # non-default column names; the rows also carry a decoy 'reaction' / 'id' column
     "custom": ["V1", "V2", "M1", "M2", "M8", "M7a"],
     # a result table fed in again: dict rows that carry the output columns of an earlier (unrelated) result
+    # text hygiene: blanks inside the reaction string, through memory and file sources
+    "strblank": ["V1", "V5", "V6", "M1", "M2"],
+    "csvblank": ["V1", "V5", "V6", "M1", "M7c"],
+    # dict rows without any other key: a missing reaction is the empty dict
+    "dictbare": ["V1", "V2", "M1", "M7c", "M7a"],
+    "jsonbare": ["V1", "V2", "M1", "M7c"],
     "stale0": ["V1", "V2", "V3", "M1", "M7a"],
     "stale1": ["V1", "V2", "V3", "M1", "M7a"],
     "stale2": ["V1", "V2", "V3", "M1", "M7a"],
@@ -90,11 +98,16 @@ def build_input(source, seq, d):
     from synrbl.SynUtils.batching import Dataset
 
     vals = [SYMBOLS[s] for s in seq]
+    bare = source.endswith("bare")
+    if bare:
+        source = source[:-4]
+    if source.endswith("blank"):
+        source = source[:-5]
     if source == "str":
         return list(vals)
     rows = []
     for i, v in enumerate(vals):
-        r = {"tag": i}
+        r = {} if bare else {"tag": i}
         if v == NAN:
             r["reaction"] = float("nan")
         elif v == ABSENT:
@@ -131,9 +144,9 @@ def build_input(source, seq, d):
             w.writerow(["tag", "reaction"])
             for r in rows:
                 if "reaction" in r:
-                    w.writerow([r["tag"], r["reaction"]])
+                    w.writerow([r.get("tag", ""), r["reaction"]])
                 else:
-                    w.writerow([r["tag"]])
+                    w.writerow([r.get("tag", "")])
         return Dataset(p) if source == "csv" else p
     raise ValueError(source)
 
@@ -315,14 +328,14 @@ def run(tier, seed):
         for source in ("str", "dict", "csv", "json"):
             for seq in sequences(SOURCE_SYMBOLS[source], 2):
                 jobs.append({"source": source, "seq": list(seq)})
-        for source in ("dictid", "custom", "stale0", "stale1", "stale2"):
+        for source in ("dictid", "custom", "stale0", "stale1", "stale2", "strblank", "csvblank", "dictbare", "jsonbare"):
             for seq in sequences(SOURCE_SYMBOLS[source], 2):
                 jobs.append({"source": source, "seq": list(seq)})
         for source, sub in (("dict", ["V1", "V2", "M1", "M2", "M8", "M7a"]), ("str", ["V1", "V2", "M1", "M9", "M3", "M5"])):
             for seq in itertools.product(sub, repeat=3):
                 jobs.append({"source": source, "seq": list(seq)})
     else:
-        for source in ("str", "dict", "csv", "json", "dictid", "custom", "stale0", "stale1", "stale2"):
+        for source in ("str", "dict", "csv", "json", "dictid", "custom", "stale0", "stale1", "stale2", "strblank", "csvblank", "dictbare", "jsonbare"):
             nn = 4 if source == "str" else 3
             for seq in sequences(SOURCE_SYMBOLS[source], nn):
                 jobs.append({"source": source, "seq": list(seq)})
